@@ -11,7 +11,7 @@ ID = "C05"
 LEVEL = "exploration"
 BUILDS = {"quick": ["rel"], "thorough": ["rel", "asan"]}
 OPTIONAL_BUILDS = ["asan"]
-BUDGET_S = {"quick": 150, "thorough": 2400}
+BUDGET_S = {"quick": 600, "thorough": 2400}
 RULE = ("Start tags with 0-6 attributes printed in random concrete syntax: names over ASCII/Unicode letters, digits, '-', '_'; "
         "bare, unquoted, single- and double-quoted values over printable characters minus the enclosing quote (so >, <, =, /, "
         "the other quote and spaces occur) minus the host comment's forbidden substrings; spaces, tabs and (in multi-line "
